@@ -661,12 +661,15 @@ pub(super) fn adds(
         )
         .unwrap();
 
-        // store result
-        operand_store(block, &instruction.operands()[0], result)?;
+        // The flags are expressions over the source registers: assign them before
+        // the destination, which may be one of the sources (`adds x0, x0, x1`).
         block.assign(scalar!("n"), n);
         block.assign(scalar!("z"), z);
         block.assign(scalar!("c"), c);
         block.assign(scalar!("v"), v);
+
+        // store result
+        operand_store(block, &instruction.operands()[0], result)?;
 
         block.index()
     };
@@ -1445,12 +1448,15 @@ pub(super) fn subs(
         )
         .unwrap();
 
-        // store result
-        operand_store(block, &instruction.operands()[0], result)?;
+        // The flags are expressions over the source registers: assign them before
+        // the destination, which may be one of the sources (`adds x0, x0, x1`).
         block.assign(scalar!("n"), n);
         block.assign(scalar!("z"), z);
         block.assign(scalar!("c"), c);
         block.assign(scalar!("v"), v);
+
+        // store result
+        operand_store(block, &instruction.operands()[0], result)?;
 
         block.index()
     };
